@@ -106,6 +106,8 @@ func init() {
 			Harness{Fn: "ZZC06Docs", Quick: p("PROP", 6), Thorough: p("PROP", 6), Expect: []string{"docs-ok", "witness:end"}},
 			Harness{Fn: "ZZC06Gen", Quick: p("PROP", 6, "FD", 1, "FL0", 1, "FL1", 1), Thorough: p("PROP", 6, "FD", 2, "FL0", 1, "FL1", 1), ThoroughBudget: 25 * time.Minute, Expect: []string{"gen-ok", "witness:end"}},
 			Harness{Fn: "ZZC06GenFlat", Quick: p("PROP", 6, "FLAT", 3), Thorough: p("PROP", 6, "FLAT", 4), Expect: []string{"gen-ok", "witness:end"}},
+			Harness{Fn: "ZZC07Seq", Quick: p("PROP", 6, "SEQ", 4), Thorough: p("PROP", 6, "SEQ", 6), Expect: []string{"seq-ok", "witness:end"}},
+			Harness{Fn: "ZZC07Num", Quick: p("PROP", 6), Thorough: p("PROP", 6), Expect: []string{"num-ok", "witness:end"}},
 		)},
 		Assumptions: []string{
 			"inputs: a corpus of 26 hand-written layouts of every syntax form (comments in every position, blank-line runs, multi-line array/map literals, tabs, \\r, missing final newline) and every generated program of the C10 family in a plain and a messy layout (double spaces, tabs, blank-line runs of 1..3, trailing and own-line comments)",
@@ -125,8 +127,11 @@ func init() {
 			Harness{Fn: "ZZC06Docs", Quick: p("PROP", 7), Thorough: p("PROP", 7), Expect: []string{"docs-ok", "witness:end"}},
 			Harness{Fn: "ZZC06Gen", Quick: p("PROP", 7, "FD", 1, "FL0", 1, "FL1", 1), Thorough: p("PROP", 7, "FD", 2, "FL0", 1, "FL1", 1), ThoroughBudget: 25 * time.Minute, Expect: []string{"gen-ok", "witness:end"}},
 			Harness{Fn: "ZZC06GenFlat", Quick: p("PROP", 7, "FLAT", 3), Thorough: p("PROP", 7, "FLAT", 4), Expect: []string{"gen-ok", "witness:end"}},
+			Harness{Fn: "ZZC07Seq", Quick: p("PROP", 7, "SEQ", 4), Thorough: p("PROP", 7, "SEQ", 6), Expect: []string{"seq-ok", "witness:end"}},
+			Harness{Fn: "ZZC07Num", Quick: p("PROP", 7), Thorough: p("PROP", 7), Expect: []string{"num-ok", "witness:end"}},
 		), mainUnit([]string{"main/c18.go", "main/c18native.go", "main/c07m.go"},
 			Harness{Fn: "ZZC07Check", Expect: []string{"check-ok", "witness:end"}},
+			Harness{Fn: "ZZC07CheckFiles", Quick: p("FILES", 2), Thorough: p("FILES", 3), Expect: []string{"files-ok", "files-unformatted", "witness:end"}},
 		)},
 		Assumptions: []string{"same inputs as C06; `evy fmt --check` through main.format and fmtCmd.Run on the model file system"},
 		Outside:     []string{"layouts outside the corpus/generator"},
